@@ -353,9 +353,11 @@ fn exec_fsync(fs: &mut Fs, rng: &mut dyn RngCore, fd: RawFd) -> i32 {
     let Some(path) = fs.open_handles.get(&fd).cloned() else {
         return -EBADF;
     };
-    if sample_prob(rng, fs.io_error_probability) {
-        return -EIO;
-    }
+    // io_error_probability is documented as the probability of I/O errors
+    // "on reads/writes" and File::sync_all / sync_data do not sample it: a
+    // ring fsync must not fail (and lose the data) where the synchronous
+    // call on the same descriptor succeeds.
+    let _ = rng;
     match fs.sync_file(&path) {
         Ok(()) => 0,
         Err(_) => -EIO,
